@@ -25,21 +25,30 @@ model/LeapfrogQc.vos model/LeapfrogQc.vok model/LeapfrogQc.required_vos: model/L
 proofs/Schedule_facts.vo proofs/Schedule_facts.glob proofs/Schedule_facts.v.beautified proofs/Schedule_facts.required_vo: proofs/Schedule_facts.v lib/Fp.vo model/Schedule.vo
 proofs/Schedule_facts.vio: proofs/Schedule_facts.v lib/Fp.vio model/Schedule.vio
 proofs/Schedule_facts.vos proofs/Schedule_facts.vok proofs/Schedule_facts.required_vos: proofs/Schedule_facts.v lib/Fp.vos model/Schedule.vos
+proofs/Tree_facts.vo proofs/Tree_facts.glob proofs/Tree_facts.v.beautified proofs/Tree_facts.required_vo: proofs/Tree_facts.v model/Tree.vo
+proofs/Tree_facts.vio: proofs/Tree_facts.v model/Tree.vio
+proofs/Tree_facts.vos proofs/Tree_facts.vok proofs/Tree_facts.required_vos: proofs/Tree_facts.v model/Tree.vos
+proofs/Balance.vo proofs/Balance.glob proofs/Balance.v.beautified proofs/Balance.required_vo: proofs/Balance.v model/Tree.vo
+proofs/Balance.vio: proofs/Balance.v model/Tree.vio
+proofs/Balance.vos proofs/Balance.vok proofs/Balance.required_vos: proofs/Balance.v model/Tree.vos
+proofs/Kernel_facts.vo proofs/Kernel_facts.glob proofs/Kernel_facts.v.beautified proofs/Kernel_facts.required_vo: proofs/Kernel_facts.v model/Kernel.vo lib/Fp.vo model/KernelF64.vo
+proofs/Kernel_facts.vio: proofs/Kernel_facts.v model/Kernel.vio lib/Fp.vio model/KernelF64.vio
+proofs/Kernel_facts.vos proofs/Kernel_facts.vok proofs/Kernel_facts.required_vos: proofs/Kernel_facts.v model/Kernel.vos lib/Fp.vos model/KernelF64.vos
 Properties/C06.vo Properties/C06.glob Properties/C06.v.beautified Properties/C06.required_vo: Properties/C06.v lib/Fp.vo model/Schedule.vo proofs/Schedule_facts.vo
 Properties/C06.vio: Properties/C06.v lib/Fp.vio model/Schedule.vio proofs/Schedule_facts.vio
 Properties/C06.vos Properties/C06.vok Properties/C06.required_vos: Properties/C06.v lib/Fp.vos model/Schedule.vos proofs/Schedule_facts.vos
 Properties/C09.vo Properties/C09.glob Properties/C09.v.beautified Properties/C09.required_vo: Properties/C09.v lib/Fp.vo model/Schedule.vo proofs/Schedule_facts.vo
 Properties/C09.vio: Properties/C09.v lib/Fp.vio model/Schedule.vio proofs/Schedule_facts.vio
 Properties/C09.vos Properties/C09.vok Properties/C09.required_vos: Properties/C09.v lib/Fp.vos model/Schedule.vos proofs/Schedule_facts.vos
-Properties/C01.vo Properties/C01.glob Properties/C01.v.beautified Properties/C01.required_vo: Properties/C01.v model/Tree.vo
-Properties/C01.vio: Properties/C01.v model/Tree.vio
-Properties/C01.vos Properties/C01.vok Properties/C01.required_vos: Properties/C01.v model/Tree.vos
-Properties/C03.vo Properties/C03.glob Properties/C03.v.beautified Properties/C03.required_vo: Properties/C03.v model/Tree.vo
-Properties/C03.vio: Properties/C03.v model/Tree.vio
-Properties/C03.vos Properties/C03.vok Properties/C03.required_vos: Properties/C03.v model/Tree.vos
-Properties/C17.vo Properties/C17.glob Properties/C17.v.beautified Properties/C17.required_vo: Properties/C17.v lib/Fp.vo model/Kernel.vo model/KernelF64.vo
-Properties/C17.vio: Properties/C17.v lib/Fp.vio model/Kernel.vio model/KernelF64.vio
-Properties/C17.vos Properties/C17.vok Properties/C17.required_vos: Properties/C17.v lib/Fp.vos model/Kernel.vos model/KernelF64.vos
+Properties/C01.vo Properties/C01.glob Properties/C01.v.beautified Properties/C01.required_vo: Properties/C01.v model/Tree.vo proofs/Tree_facts.vo proofs/Balance.vo
+Properties/C01.vio: Properties/C01.v model/Tree.vio proofs/Tree_facts.vio proofs/Balance.vio
+Properties/C01.vos Properties/C01.vok Properties/C01.required_vos: Properties/C01.v model/Tree.vos proofs/Tree_facts.vos proofs/Balance.vos
+Properties/C03.vo Properties/C03.glob Properties/C03.v.beautified Properties/C03.required_vo: Properties/C03.v model/Tree.vo proofs/Tree_facts.vo
+Properties/C03.vio: Properties/C03.v model/Tree.vio proofs/Tree_facts.vio
+Properties/C03.vos Properties/C03.vok Properties/C03.required_vos: Properties/C03.v model/Tree.vos proofs/Tree_facts.vos
+Properties/C17.vo Properties/C17.glob Properties/C17.v.beautified Properties/C17.required_vo: Properties/C17.v lib/Fp.vo model/Kernel.vo model/KernelF64.vo proofs/Kernel_facts.vo
+Properties/C17.vio: Properties/C17.v lib/Fp.vio model/Kernel.vio model/KernelF64.vio proofs/Kernel_facts.vio
+Properties/C17.vos Properties/C17.vok Properties/C17.required_vos: Properties/C17.v lib/Fp.vos model/Kernel.vos model/KernelF64.vos proofs/Kernel_facts.vos
 Properties/C02.vo Properties/C02.glob Properties/C02.v.beautified Properties/C02.required_vo: Properties/C02.v model/Leapfrog.vo model/LeapfrogQc.vo
 Properties/C02.vio: Properties/C02.v model/Leapfrog.vio model/LeapfrogQc.vio
 Properties/C02.vos Properties/C02.vok Properties/C02.required_vos: Properties/C02.v model/Leapfrog.vos model/LeapfrogQc.vos
